@@ -135,6 +135,9 @@ func bindingsSP(in *bInput) (*saml2.SAMLServiceProvider, string) {
 	case "signField":
 		sp.SPKeyStore = dsig.TLSCertKeyStore{Certificate: [][]byte{ks["encField"].DER}, PrivateKey: ks["encField"].Key}
 		sp.SPSigningKeyStore = dsig.TLSCertKeyStore{Certificate: [][]byte{ks["signField"].DER}, PrivateKey: ks["signField"].Key}
+	case "signFieldEncSetter":
+		sp.SetSPKeyStore(&saml2.KeyStore{Signer: ks["encSetter"].Key, Cert: ks["encSetter"].DER})
+		sp.SPSigningKeyStore = dsig.TLSCertKeyStore{Certificate: [][]byte{ks["signField"].DER}, PrivateKey: ks["signField"].Key}
 	case "signSetter":
 		sp.SPKeyStore = dsig.TLSCertKeyStore{Certificate: [][]byte{ks["encField"].DER}, PrivateKey: ks["encField"].Key}
 		if ec {
